@@ -126,6 +126,10 @@ def injections(world, ep, sa):
             for n in (0, 8, 48, 80):
                 yield ('garbage-sk:exch=%d:%s:len=%d' % (exch, 'res' if rflag else 'req', n),
                        F.clear(spi_i, spi_r, exch, iflag | rflag, mid, [(F.SK, bytes((7 * i + 3) & 0xFF for i in range(n)))]))
+    # the same kinds of forgery arriving from another source address than the peer's
+    for exch, rflag, mid in ((F.INFO, 0, sa.peer_msg_id), (F.CCSA, 0, sa.peer_msg_id), (F.INFO, F.F_R, sa.my_msg_id), (F.INIT, F.F_R, 0)):
+        yield ('from-stranger:cleartext:exch=%d:%s' % (exch, 'res' if rflag else 'req'),
+               F.clear_raw(spi_i, spi_r, exch, iflag | rflag, mid, 0, b''))
     # wrong role flag (as if the endpoint's own message came back)
     yield ('cleartext:own-role-flag', F.clear_raw(spi_i, spi_r, F.INFO, (0 if iflag else F.F_I), sa.peer_msg_id, 0, b''))
     # mutated authentic messages
@@ -164,6 +168,10 @@ def injections(world, ep, sa):
             yield ('reprotected:%s:%s' % (kind, lab),
                    F.protect(h['spi_i'], h['spi_r'], h['exch'], h['flags'], sa.peer_msg_id if not h['flags'] & F.F_R
                              else sa.my_msg_id, None, keys, first_inner=first, inner=inner))
+    for d in authentic[-1:]:
+        m = bytearray(d.data)
+        m[40] ^= 0x01
+        yield ('from-stranger:mutated:%s-%s' % (C_EXCH.get(d.data[18], d.data[18]), 'res' if d.data[19] & F.F_R else 'req'), bytes(m))
     # reflection: the endpoint's own last emission on this IKE_SA comes back
     own = [d for d in world.sent_log if d.sender == ep.name and d.data[0:8] == spi_i and d.data[18] != F.INIT]
     for d in own[-1:]:
@@ -198,6 +206,8 @@ def state_class(world, ep):
 def check_one(world, name, sa_index, label, data):
     ep = world.endpoints[name]
     peer_addr = str(ep.controller.ike_sas[sa_index].peer_addr)
+    if label.startswith('from-stranger:'):
+        peer_addr = '10.9.9.9' if ':' not in peer_addr else '2001:db8:9::9'
     before = snapshot(ep, world.clock)
     w = world.fork()
     w.step(('inject', name, data, peer_addr))
